@@ -41,8 +41,10 @@ R.contract(M + "_parse_args", trusted=True, types={"argv": ARGS}, returns=ARGS, 
                     "result.preserve_private_addresses == argv.preserve_private_addresses",
                     "result.preserve_host_bits == argv.preserve_host_bits"])
 
-# anonymize_files as seen from main: only the binding of its parameters is recorded (ghost call record)
-R.contract(MF + "anonymize_files", trusted=True, record=True,
+# anonymize_files as seen from main: the binding of its parameters is recorded (ghost call record) and it may
+# refuse with ValueError.  This facade is what the verified contract anonymize_files@impl (contracts/files.py)
+# implies where the option values are well formed; for malformed values it only says ValueError may escape.
+R.contract(MF + "anonymize_files", trusted=True, record=True, raises={"ValueError": None},
            types={"input_path": STR, "output_path": STR, "anon_pwd": BOOL, "anon_ip": BOOL, "salt": Opt(STR),
                   "dumpfile": Opt(STR), "sensitive_words": Opt(LS), "undo_ip_anon": BOOL, "as_numbers": Opt(LS),
                   "reserved_words": Opt(LS), "preserve_prefixes": Opt(LS), "preserve_networks": Opt(LS),
@@ -58,10 +60,13 @@ RFC1918 = "('10.0.0.0/8', '172.16.0.0/12', '192.168.0.0/16')"
 R.contract(M + "main",
            types={"argv": ARGS}, returns=NONE, modifies=["log"],
            # contradictory or unusable combinations are rejected ...
-           raises={"ValueError": REJECT},
-           # ... before anything is written (anonymize_files is the only writer)
-           raises_ensures=["not called('anonymize_files')"],
+           raises={"ValueError": None},
+           # ... before anything is written (anonymize_files is the only writer): a rejected combination never
+           # reaches anonymize_files, and a ValueError that is not such a rejection comes out of anonymize_files
+           raises_ensures=["implies(%s, not called('anonymize_files'))" % REJECT,
+                           "called('anonymize_files') or (%s)" % REJECT],
            ensures=[
+               "not (%s)" % REJECT,
                "implies(not (%s), not called('anonymize_files'))" % ANYOPT,
                "implies(%s, ncalls('anonymize_files') == 1)" % ANYOPT,
                "implies(%s, callarg('anonymize_files', 'input_path') == argv.input and "
